@@ -77,4 +77,84 @@ theorem without_finally_state_leaks :
       [⟨[1], [1]⟩, ⟨[1, 2, 3], [1, 2, 3]⟩]).1 ≠ [⟨[1], [1]⟩, ⟨[1, 2, 3], [1, 2, 3]⟩] := by
   decide
 
+/-! ### the content of `level2_preserves_state` made visible: each of the three regenerated facts is necessary
+
+`Level2State.runFlags norm resetInFinally unprotected bySlicing` is getBH_level2 as a function of the three facts read
+off the AST (`runNowN norm` = the regenerated values), with scipy's re-normalisation `norm` of a tiled orientation path
+as a parameter (`norm = id`: `run` / `runNow`). -/
+
+theorem runN_id {ε β : Type} (inFinally bySlicing : Bool) (compute : List (Obj G V) → Except ε β)
+    (objs : List (Obj G V)) : runN id inFinally bySlicing compute objs = run inFinally bySlicing compute objs := by
+  have : (tileN (id : G → G) : Nat → Obj G V → Obj G V) = tile := by
+    funext M o; simp [tileN, tile]
+  simp only [runN, run, this]
+
+/-- `runNow` is `runNowN` without re-normalisation -/
+theorem runNow_eq {ε β : Type} (compute : List (Obj G V) → Except ε β) (objs : List (Obj G V)) :
+    runNowN id compute objs = runNow compute objs := by
+  simp only [runNowN, runFlags, runNow, runN_id]
+
+/-- **sufficiency, strengthened**: with the three facts as they are regenerated — restore in the `finally`, no raising
+statement before the `try`, restore from the saved arrays — every fault schedule leaves every object exactly as it
+was, for EVERY re-normalisation of the tiled orientations and without any assumption on the objects (the hypothesis
+`pos.length = ori.length` of `level2_preserves_state` is only needed by the slicing variant) -/
+theorem level2_preserves_state_any_norm {ε β : Type} (norm : G → G) (compute : List (Obj G V) → Except ε β)
+    (objs : List (Obj G V)) : (runNowN norm compute objs).1 = objs := by
+  have hfin : (Gen.Exits.resetInFinally && Gen.Exits.unprotectedSitesAfterTiling == 0) = true := by decide
+  have hsl : Gen.Exits.restoreBySlicing = false := by decide
+  have hz : ∀ (l t : List (Obj G V)), l.length = t.length → List.zipWith (restore false) l t = l := by
+    intro l
+    induction l with
+    | nil => intro t _; cases t <;> rfl
+    | cons a l ih =>
+      intro t ht
+      cases t with
+      | nil => simp at ht
+      | cons b t =>
+        have := ih t (by simpa using ht)
+        simp only [List.zipWith_cons_cons, this]
+        simp [restore]
+  unfold runNowN runFlags runN
+  simp only [hfin, hsl, if_true]
+  split <;> exact hz _ _ (by simp)
+
+/-- **fact 1 is necessary** (`resetInFinally`): with the other two as they are (no raising statement before the `try`,
+restore from the saved arrays, exact arithmetic), a restore that is not in a `finally` leaks the tiled path on a failing
+computation -/
+theorem without_finally_flag_state_leaks :
+    (runFlags (G := Nat) (V := Nat) (ε := Unit) (β := Unit) id false 0 false (fun _ => .error ())
+      [⟨[1], [1]⟩, ⟨[1, 2, 3], [1, 2, 3]⟩]).1 ≠ [⟨[1], [1]⟩, ⟨[1, 2, 3], [1, 2, 3]⟩] := by
+  decide
+
+/-- **fact 2 is necessary** (`unprotectedSitesAfterTiling = 0`): with the restore in a `finally` and from the saved
+arrays, ONE statement that can raise between the tiling and the `try` leaks the tiled path when it raises -/
+theorem with_unprotected_site_state_leaks :
+    (runFlags (G := Nat) (V := Nat) (ε := Unit) (β := Unit) id true 1 false (fun _ => .error ())
+      [⟨[1], [1]⟩, ⟨[1, 2, 3], [1, 2, 3]⟩]).1 ≠ [⟨[1], [1]⟩, ⟨[1, 2, 3], [1, 2, 3]⟩] := by
+  decide
+
+/-- **fact 3 is necessary** (`restoreBySlicing = false`): with the restore in a protected `finally`, slicing the tiled
+path back leaks the re-normalised orientations — on every schedule, also when nothing fails — as soon as the
+normalisation changes an entry (here `norm = (· + 1)` on ℕ stands for a 1-ulp change) … -/
+theorem with_slicing_renormalisation_leaks :
+    (runFlags (G := Nat) (V := Nat) (ε := Unit) (β := Unit) (· + 1) true 0 true (fun _ => .ok ())
+      [⟨[1], [1]⟩, ⟨[1, 2, 3], [1, 2, 3]⟩]).1 ≠ [⟨[1], [1]⟩, ⟨[1, 2, 3], [1, 2, 3]⟩] ∧
+    (runFlags (G := Nat) (V := Nat) (ε := Unit) (β := Unit) (· + 1) true 0 true (fun _ => .error ())
+      [⟨[1], [1]⟩, ⟨[1, 2, 3], [1, 2, 3]⟩]).1 ≠ [⟨[1], [1]⟩, ⟨[1, 2, 3], [1, 2, 3]⟩] := by
+  decide
+
+/-- … and, even in exact arithmetic (`norm = id`), slicing restores an object only if its two paths have equal lengths:
+the hypothesis `h` of `level2_preserves_state` cannot be dropped for the slicing variant (it is not needed at all for
+the variant in /repo, `level2_preserves_state_any_norm`) -/
+theorem with_slicing_unequal_paths_leak :
+    (runFlags (G := Nat) (V := Nat) (ε := Unit) (β := Unit) id true 0 true (fun _ => .ok ())
+      [⟨[1, 2], [1]⟩, ⟨[1, 2, 3], [1, 2, 3]⟩]).1 ≠ [⟨[1, 2], [1]⟩, ⟨[1, 2, 3], [1, 2, 3]⟩] := by
+  decide
+
+/-- the three witnesses are minimal: switching the single flag back gives the unchanged state on the same inputs -/
+example :
+    (runFlags (G := Nat) (V := Nat) (ε := Unit) (β := Unit) (· + 1) true 0 false (fun _ => .error ())
+      [⟨[1], [1]⟩, ⟨[1, 2, 3], [1, 2, 3]⟩]).1 = [⟨[1], [1]⟩, ⟨[1, 2, 3], [1, 2, 3]⟩] := by
+  decide
+
 end MagpyVerif.C08
